@@ -128,6 +128,7 @@ func runC09(c *an.Check) {
 	c.Rule("C09.R3", "request handlers: every lockSwap/SendEvent is preceded on all paths by a store-existence test and a live-map existence test keyed by the requested id whose may-exist edge cannot reach them")
 	c.Rule("C09.R4", "every ApplyToSwapData call is dominated by the success edge of the next-state lookup for the delivered event on the same machine")
 	c.Rule("C09.R6", "once the sender test has passed, every path to a nil return passes the handler call / SendEvent: an authenticated message is not dropped on stored state")
+	c.Rule("C09.R7", "an activeSwaps entry is removed only for the id of a machine whose SendEvent/Recover just returned done, or as roll-back behind the success edge of this chain's own lock-in of that id")
 	c.Rule("C09.R5", "no function reachable from OnMessageReceived outside SendEvent writes a SwapData/SwapStateMachine it did not allocate, or calls Store.UpdateData")
 
 	w := c.W
@@ -198,6 +199,7 @@ func runC09(c *an.Check) {
 	x.ruleR3()
 	x.ruleR4()
 	x.ruleR5()
+	x.ruleR7()
 }
 
 // c09FindGate: the unique production function of package swap that inserts a
@@ -2733,6 +2735,306 @@ func (x *c09Ctx) acceptedAt(fn *ssa.Function, at *ssa.BasicBlock, machine ssa.Va
 		return "unknown", unk, seen
 	}
 	return "bad", "", seen
+}
+
+// ---- R7: eviction only by the owner -------------------------------------------------
+
+type c09Removal struct {
+	fn  *ssa.Function
+	ci  ssa.CallInstruction
+	key ssa.Value
+}
+
+// idArgOf: the id argument of a locker call (only lockSwap itself has a known id position).
+func (x *c09Ctx) lockIdArg(l *ssa.Call) ssa.Value {
+	if l.Common().StaticCallee() == x.lockSwap && x.lockIdIdx < len(l.Call.Args) {
+		return l.Call.Args[x.lockIdIdx]
+	}
+	return nil
+}
+
+// justified decides whether removing the entry with key origin o (in terms of
+// fn's values) at block at is justified. doneArg, when non-nil, is a value of fn
+// that carries the done flag handed to a helper. Verdicts "ok", "bad", "unknown".
+func (x *c09Ctx) justified(fn *ssa.Function, at *ssa.BasicBlock, o c09Org, doneArg ssa.Value, depth int) (verdict, why string, weight int) {
+	w := x.w
+	fr := &c09Frame{fn: fn}
+	machineOf := func(o c09Org) ssa.Value {
+		if o.Str && o.Chain == "SwapStateMachine.SwapId" {
+			return c09Strip(o.Root)
+		}
+		return nil
+	}
+	relatesToMachine := func(m ssa.Value) bool {
+		m = c09Strip(m)
+		if mo := machineOf(o); mo != nil && mo == m {
+			return true
+		}
+		if ko, _, ok := x.machineKey(fr, m); ok && ko.same(o) {
+			return true
+		}
+		return false
+	}
+	type just struct {
+		what    string
+		relates bool
+	}
+	var js []just
+	// (b) done == true of SendEvent/Recover
+	for _, ci := range an.Calls(fn) {
+		k, ok := ci.(*ssa.Call)
+		if !ok {
+			continue
+		}
+		g := k.Common().StaticCallee()
+		if g != x.sendEvent && g != x.recoverFn {
+			continue
+		}
+		dom := false
+		for _, dv := range an.ResultValues(k, 0) {
+			if doneArg != nil && c09Strip(doneArg) == dv {
+				dom = true // the flag itself is handed to the helper that tests it
+			}
+			te, _ := an.BoolEdges(dv)
+			for _, e := range te {
+				if an.EdgeDominates(e, at) {
+					dom = true
+				}
+			}
+		}
+		if dom {
+			js = append(js, just{g.Name() + " returned done at " + w.Pos(k.Pos()), relatesToMachine(k.Call.Args[0])})
+		}
+	}
+	// (a) behind the success edge of this function's own lock-in
+	for _, ci := range an.Calls(fn) {
+		l, ok := ci.(*ssa.Call)
+		if !ok {
+			continue
+		}
+		mi, isL := x.lockers[l.Common().StaticCallee()]
+		if !isL || mi >= len(l.Call.Args) {
+			continue
+		}
+		okE, _ := an.OkEdges(l)
+		dom := false
+		for _, e := range okE {
+			if an.EdgeDominates(e, at) {
+				dom = true
+			}
+		}
+		if !dom {
+			continue
+		}
+		rel := relatesToMachine(l.Call.Args[mi])
+		if ida := x.lockIdArg(l); ida != nil && !rel {
+			if io, ok := x.origin(ida); ok && io.same(o) {
+				rel = true
+			}
+		}
+		if !rel {
+			// the machine was built from this very id
+			if cc, isCall := c09Strip(l.Call.Args[mi]).(*ssa.Call); isCall {
+				for _, a := range cc.Call.Args {
+					if ao, ok := x.origin(a); ok && ao.Root == o.Root && ao.Chain == o.Chain {
+						rel = true
+					}
+				}
+			}
+		}
+		js = append(js, just{"lock-in succeeded at " + w.Pos(l.Pos()), rel})
+	}
+	for _, j := range js {
+		if j.relates {
+			return "ok", j.what, 1
+		}
+	}
+	if len(js) > 0 {
+		return "unknown", "the removal lies behind " + js[0].what + ", but the removed id could not be related to that machine", 1
+	}
+	// nothing in this function justifies it: do the callers?
+	var keyParam *ssa.Parameter
+	if p, ok := c09Strip(o.Root).(*ssa.Parameter); ok && p.Parent() == fn {
+		keyParam = p
+	}
+	var doneParam *ssa.Parameter
+	for _, p := range fn.Params {
+		if b, isB := p.Type().(*types.Basic); !isB || b.Kind() != types.Bool {
+			continue
+		}
+		te, _ := an.BoolEdges(p)
+		for _, e := range te {
+			if an.EdgeDominates(e, at) {
+				doneParam = p
+			}
+		}
+	}
+	// a function that locks a swap in or delivers events itself is the place
+	// where the justification has to be: its callers cannot supply it
+	own := ""
+	for _, ci := range an.Calls(fn) {
+		g := ci.Common().StaticCallee()
+		if _, isL := x.lockers[g]; isL {
+			own = "the lock-in at " + w.Pos(ci.Pos())
+		} else if (g == x.sendEvent || g == x.recoverFn) && own == "" {
+			own = g.Name() + " at " + w.Pos(ci.Pos())
+		}
+	}
+	if own != "" {
+		return "bad", "in " + x.fname(fn) + " it lies on a path that is neither behind the success edge of " + own + " nor behind a done == true result of SendEvent/Recover (e.g. a refusal before the lock-in succeeded)", 1
+	}
+	if keyParam == nil || depth >= 3 {
+		if depth >= 3 {
+			return "unknown", "call depth limit reached while following the removed id to the callers", 1
+		}
+		return "bad", "in " + x.fname(fn) + " neither a done == true result of SendEvent/Recover nor the success edge of a lock-in dominates it", 1
+	}
+	n := 0
+	for _, caller := range prodFuncs(w) {
+		for _, ci := range an.Calls(caller) {
+			if ci.Common().StaticCallee() != fn {
+				continue
+			}
+			if _, isGo := ci.(*ssa.Go); isGo {
+				return "unknown", x.fname(fn) + " is started as a goroutine in " + x.fname(caller), 1
+			}
+			n++
+			cf := &c09Frame{fn: caller}
+			child := x.enter(cf, ci, fn)
+			co, ok := child.bind[keyParam]
+			if !ok {
+				return "unknown", "cannot trace the removed id through the call of " + x.fname(fn) + " in " + x.fname(caller) + " (" + w.Pos(ci.Pos()) + ")", n
+			}
+			full := c09Org{Root: co.Root, Chain: c09Join(co.Chain, o.Chain), Str: co.Str || o.Str}
+			var da ssa.Value
+			if doneParam != nil {
+				if i := c09ParamIndex(doneParam); i < len(ci.Common().Args) {
+					da = ci.Common().Args[i]
+				}
+			}
+			v, why, _ := x.justified(caller, ci.Block(), full, da, depth+1)
+			if v != "ok" {
+				return v, why + "; reached through " + x.fname(fn) + " called at " + w.Pos(ci.Pos()), n
+			}
+		}
+	}
+	if n == 0 {
+		return "none", "", 1
+	}
+	return "ok", "justified at every call of " + x.fname(fn), n
+}
+
+func (x *c09Ctx) ruleR7() {
+	c, w := x.c, x.w
+	// functions that delete activeSwaps[parameter]
+	rel := map[*ssa.Function]int{}
+	var sites []c09Removal
+	for _, fn := range prodFuncs(w) {
+		for _, ci := range an.Calls(fn) {
+			if w.Info(ci).Name != "builtin:delete" || len(ci.Common().Args) != 2 || !c09IsActiveMap(ci.Common().Args[0]) {
+				continue
+			}
+			if p, ok := c09Strip(ci.Common().Args[1]).(*ssa.Parameter); ok && p.Parent() == fn {
+				rel[fn] = c09ParamIndex(p)
+			} else {
+				sites = append(sites, c09Removal{fn, ci, ci.Common().Args[1]})
+			}
+		}
+	}
+	if !c.AtLeast("C09.R7", "functions that delete an activeSwaps entry", len(rel)+len(sites), 1) {
+		return
+	}
+	for _, fn := range prodFuncs(w) {
+		for _, ci := range an.Calls(fn) {
+			if ki, ok := rel[ci.Common().StaticCallee()]; ok && ki < len(ci.Common().Args) {
+				if _, isGo := ci.(*ssa.Go); !isGo {
+					sites = append(sites, c09Removal{fn, ci, ci.Common().Args[ki]})
+				}
+			}
+		}
+	}
+	// liveness: a function nothing in production calls or takes the value of
+	addrTaken := map[*ssa.Function]bool{}
+	for _, fn := range prodFuncs(w) {
+		for _, b := range fn.Blocks {
+			for _, in := range b.Instrs {
+				var static *ssa.Function
+				if ci, ok := in.(ssa.CallInstruction); ok {
+					static = ci.Common().StaticCallee()
+				}
+				for _, op := range in.Operands(nil) {
+					if f, ok := (*op).(*ssa.Function); ok && f != static {
+						addrTaken[f] = true
+					}
+				}
+			}
+		}
+	}
+	cg := w.CG()
+	var live func(fn *ssa.Function, seen map[*ssa.Function]bool) bool
+	live = func(fn *ssa.Function, seen map[*ssa.Function]bool) bool {
+		if seen[fn] {
+			return false
+		}
+		seen[fn] = true
+		if addrTaken[fn] {
+			return true
+		}
+		n := cg.Nodes[fn]
+		if n == nil {
+			return false
+		}
+		for _, e := range n.In {
+			if e.Caller == nil || e.Caller.Func == nil {
+				continue
+			}
+			cf := e.Caller.Func
+			if cf.Synthetic != "" {
+				if live(cf, seen) {
+					return true
+				}
+				continue
+			}
+			if w.InModule(cf) && !an.IsTestSupport(w.FnRel(cf)) {
+				return true
+			}
+		}
+		return false
+	}
+	total := 0
+	for _, st := range sites {
+		fn := st.fn
+		cons := x.fname(fn) + " removes an activeSwaps entry"
+		pos := w.Pos(st.ci.Pos())
+		o, ok := x.origin(st.key)
+		if !ok {
+			total++
+			c.Unknown("C09.R7", cons, pos, "cannot trace the removed id ("+w.Term(st.key)+")")
+			continue
+		}
+		v, why, wgt := x.justified(fn, st.ci.Block(), o, nil, 0)
+		total += wgt
+		handler := ""
+		if x.visitedR5[fn] {
+			handler = " (reachable from OnMessageReceived: a peer message gets here)"
+		}
+		switch v {
+		case "ok":
+			c.OK("C09.R7", cons, pos, why)
+		case "unknown":
+			c.Unknown("C09.R7", cons, pos, why)
+		case "none":
+			c.Note("C09.R7", cons+" (dead)", pos, "a removal helper without production callers")
+		default:
+			top := an.EnclosingTop(fn)
+			if top == fn && !live(fn, map[*ssa.Function]bool{}) {
+				c.Note("C09.R7", cons+" (dead)", pos, "unjustified removal in a function without production callers in the call graph: ignored while it stays unreachable ("+why+")")
+				continue
+			}
+			c.Bad("C09.R7", cons, pos, "the entry for "+w.Term(st.key)+" is removed although "+why+handler+". History: a request (or any message handled here) that carries the id of a LIVE swap and is refused evicts that swap from the active map: it gets no more messages, payment notifications, chain callbacks or timeouts (GetActiveSwap fails) and its channel lock is gone, so a second swap can start on the channel")
+		}
+	}
+	c.AtLeast("C09.R7", "removal sites examined (a helper counts once per call)", total, 18)
 }
 
 // ---- R5 -----------------------------------------------------------------------------
